@@ -466,6 +466,18 @@ func (g *Gen) run() {
 			for gname := range ghostFns {
 				g.w.heapArr(st, "ghost:"+gname, "Int")
 			}
+			// captured variables are distinct, live variables of the enclosing function
+			for i, fv := range f.FreeVars {
+				a := g.val(fv, st)
+				g.w.assume(fmt.Sprintf("(not (= %s 0))", a.S))
+				for _, fv2 := range f.FreeVars[:i] {
+					g.w.assume(fmt.Sprintf("(not (= %s %s))", a.S, g.val(fv2, st).S))
+				}
+			}
+			if g.ctr != nil && g.ctr.Recovers {
+				sp := g.w.fresh("is_panicking", "Bool")
+				g.symPanicking = &sp
+			}
 			g.emitAxioms(st)
 			for _, si := range stateInvariants {
 				env := &SpecEnv{g: g, st: st, old: st, fn: f, argOverride: map[string]Term{}, bound: map[string]Term{}, boundTypes: map[string]types.Type{}}
@@ -789,6 +801,9 @@ func (g *Gen) prematerialise(st *State) {
 				} else {
 					g.w.heapArr(st, "obj:"+types.TypeString(u.Elem(), nil), g.w.sortOf(u.Elem()))
 				}
+			} else {
+				// pointers to non-struct memory (captured variables, &local passed on): one heap per pointee type, created up front
+				g.w.heapArr(st, "ptr:"+types.TypeString(u.Elem(), nil), g.w.sortOf(u.Elem()))
 			}
 			visit(u.Elem(), depth+1)
 		case *types.Slice:
@@ -808,6 +823,9 @@ func (g *Gen) prematerialise(st *State) {
 	}
 	for _, p := range g.f.Params {
 		visit(p.Type(), 0)
+	}
+	for _, fv := range g.f.FreeVars {
+		visit(fv.Type(), 0)
 	}
 	for _, b := range g.f.Blocks {
 		for _, in := range b.Instrs {
